@@ -55,6 +55,9 @@ def judge(fam, vec, asg):
 
 
 def visit(acc, blk, vec, asg, idx):
+    if blk.meta.get("reverse"):        # the same fields written in reverse order
+        P = T.PREFIX[blk.family]
+        vec = P + "/".join(reversed(vec[len(P):].split("/")))
     acc["n"] += 1
     acc["calls"] += 6
     why, obs = judge(blk.family, vec, asg)
@@ -125,6 +128,11 @@ def blocks(tier):
                             v3_env_departures(1), twin=twin))
     blocks.append(Block("v3.env_two_values", fam, pick_bases(fam, 12 if thorough else 4),
                         tsp3[::90], v3_env_two_values(), twin=twin))
+    # input order must not matter for the sub-vectors either: reversed field order
+    blocks.append(Block("v3.reversed.all_base_x_env<=1", fam, spaces.v3_base_all()[::4 if not thorough else 1],
+                        tsp3[::90], v3_env_departures(1), twin=twin, meta={"reverse": True}))
+    blocks.append(Block("v2.reversed.all_base_x_env_partial", "2", spaces.v2_base_all()[::3 if not thorough else 1],
+                        tsp2[::60], spaces.v2_env_partial(), meta={"reverse": True}))
     if thorough:
         # the complete environmental spelling space (30,000,000) on one base vector, v3.1
         full = dict((m, [None] + T.V3[m]) for m in T.V3_ENV)
